@@ -112,7 +112,7 @@ Definition client_view (tr : list wev) : view := client tr false 0 [] [] 0.
 
 (* ---- integer encoding: one op = one exchange on a freshly built stack ----
    [nlayers; (kind intervenes sticky)*; proto; acts...] with proto 0 = HTTP/1, 1 = HTTP/2 and
-   acts 0 k v | 1 c | 2 len b.. | 3 | 4 | 5 c (informational, ignored) *)
+   acts 0 k v | 1 c | 2 len b.. | 3 | 4 | 5 c (informational, ignored) | 6 v (Set-Cookie of the handler's own) *)
 Definition kind_of (z : Z) : kind :=
   match z with 0 => KStream | 1 => KTrace | 2 => KConn | 3 => KRate | 4 => KBreaker | 5 => KRR | 6 => KReb | _ => KBuffer end.
 
@@ -134,6 +134,7 @@ Fixpoint decode_acts (fuel : nat) (l : list Z) : list hact :=
     | 3 :: r => HFlush :: decode_acts f r
     | 4 :: r => HHijack :: decode_acts f r
     | 5 :: _ :: r => decode_acts f r      (* an informational 1xx response before the final status: not part of the view *)
+    | 6 :: v :: r => HSet cookie_key (v + 1) :: decode_acts f r   (* the handler's own Set-Cookie (value 0 is the balancers') *)
     | _ => []
     end
   end.
@@ -142,9 +143,11 @@ Definition hash_bytes (bs : list Z) : Z := fold_left (fun h b => (h * 131 + b + 
 Definition hash_hdrs (hs : list (Z * Z)) : Z :=
   fold_left (fun h kv => (h + (fst kv * 31 + snd kv + 1)) mod 1000003) (filter (fun kv => fst kv <? 1000) hs) 0.
 Definition has_cookie (hs : list (Z * Z)) : Z := zbool (existsb (fun kv => fst kv =? cookie_key) hs).
+(* number of Set-Cookie lines: the balancers' affinity cookies and the handler's own *)
+Definition n_cookies (hs : list (Z * Z)) : Z := Z.of_nat (length (filter (fun kv => fst kv =? cookie_key) hs)).
 
 (* observables: [hijacked; status; invocations; body length; body hash; number and hash of the handler's headers
-   delivered; Set-Cookie present; number of Flush calls that reached the connection's own writer] *)
+   delivered; number of Set-Cookie lines; number of Flush calls that reached the connection's own writer] *)
 Definition exchange (op : list Z) : list Z :=
   match op with
   | nl :: r =>
@@ -154,7 +157,7 @@ Definition exchange (op : list Z) : list Z :=
       let '(tr, n) := serve st c h in
       let v := client_view tr in
       [zbool (v_hijacked v); v_status v; n; Z.of_nat (length (v_body v)); hash_bytes (v_body v);
-       Z.of_nat (length (filter (fun kv => fst kv <? 1000) (v_hdrs v))); hash_hdrs (v_hdrs v); has_cookie (v_hdrs v); v_flushes v]
+       Z.of_nat (length (filter (fun kv => fst kv <? 1000) (v_hdrs v))); hash_hdrs (v_hdrs v); n_cookies (v_hdrs v); v_flushes v]
   | [] => []
   end.
 
